@@ -1714,4 +1714,18 @@ theorem encode_decode' (k : Kind) (b : Bits) (hl : ValidLen k b.length = true) (
 
 end
 
+
+theorem reqOfValue_kind (k : Kind) (v : RVal) (q : Req) (h : reqOfValue k v = some q) : q.kind = k := by
+  cases v with
+  | flt p =>
+    cases p with
+    | none => cases k <;> simp [reqOfValue] at h
+    | some p => cases k <;> simp [reqOfValue] at h <;> (subst h; rfl)
+  | int i => cases k <;> simp [reqOfValue] at h <;> (subst h; rfl)
+  | str s => cases k <;> simp [reqOfValue] at h <;> (subst h; rfl)
+  | bytes d => cases k <;> simp [reqOfValue] at h <;> (subst h; rfl)
+  | bool x => cases k <;> simp [reqOfValue] at h <;> (subst h; rfl)
+  | bits x => cases k <;> simp [reqOfValue] at h <;> (subst h; rfl)
+  | none => cases k <;> simp [reqOfValue] at h
+
 end BM.C02
